@@ -263,7 +263,9 @@ Got(s, i) == rep[<<s, i>>]
 Failures == {n \in 1..Len(hist) : hist[n].m = msg /\ hist[n].a # "ok" /\ hist[n].s \notin {"quit", "rset"}}
 \* a message's delivery is over (its result is final): judged here, once per message
 Over == pc \in {"next", "done"}
-OnlyRcptRefusals == \A n \in Failures : hist[n].s = "rcpt" /\ hist[n].a \in {"t4", "p5"}
+\* (DATA refused after every recipient was refused is a consequence of the refusals, not another failure)
+OnlyRcptRefusals == \A n \in Failures : \/ (hist[n].s = "rcpt" /\ hist[n].a \in {"t4", "p5"})
+                                          \/ (hist[n].s = "data" /\ hist[n].a \in {"t4", "p5"} /\ AllRefused)
 Reported(i) == IF result.k = "raise" THEN result.c ELSE result.per[i]
 
 \* every attempt ends, with a result
